@@ -69,3 +69,20 @@ pub fn on_shard(site: &'static str, idx: usize, start: usize, end: usize) {
         cb(site, idx, start, end);
     }
 }
+
+type PlanFn = Arc<dyn Fn(&[String]) + Send + Sync>;
+static PLAN_CB: RwLock<Option<PlanFn>> = RwLock::new(None);
+
+/// Install (or clear) the callback that observes the node kinds of the chain `Runner::run_collect`
+/// is about to execute (after planning).
+pub fn set_plan_callback(cb: Option<PlanFn>) {
+    *PLAN_CB.write().unwrap() = cb;
+}
+
+/// Called by `run_collect` with one entry per node of the chain that will run.
+pub fn on_plan(kinds: &[String]) {
+    let cb = PLAN_CB.read().unwrap().clone();
+    if let Some(cb) = cb {
+        cb(kinds);
+    }
+}
